@@ -467,6 +467,18 @@ def r10_history_siblings(idx, r):
                               "moved, the values of whatever sat at its present position")
     if n < 2:
         raise AnalysisError(f"historyTracker: only {n} database history queries found")
+    # the live value may stand in for a step only while that step is the current one AND the database does not hold it yet
+    gb = next((fn for fn in ht.all_funcs() if fn.name == "getBlockHistoryVal"), None)
+    if gb is None:
+        raise AnchorMissing("HistoryTrackerInterface.getBlockHistoryVal")
+    live = [x for x in walk_local(gb.node) if isinstance(x, ast.Return) and x.value is not None and isinstance(x.value, ast.Subscript) and norm(x.value.value).endswith(".p")]
+    if not live:
+        raise AnchorMissing("getBlockHistoryVal: return block.p[paramName]")
+    for x in live:
+        txt = " and ".join(("" if p else "not ") + "(" + norm(t) + ")" for t, p in path_conditions(gb.node, x))
+        r.require("_isCurrentTimeStep" in txt and "_databaseHasDataForTimeStep" in txt and "not self._databaseHasDataForTimeStep" in txt.replace("not (self._databaseHasDataForTimeStep", "not self._databaseHasDataForTimeStep"),
+                  "tracker:live-value-only-while-the-step-is-unwritten", gb, node=x,
+                  msg=f"the live parameter value is returned under `{txt}`: once the current step has been written, later changes of the live value must not be reported as that step's history")
 
 
 def r11_load_preference(idx, r):
